@@ -28,7 +28,10 @@ SPEC = {
              "settings x 4 environments; every case with decoy variables under every other "
              "spelling of the name, sibling fields of other settings, and the history build, load, assign, load, rebuilding "
              "load, assign, invalid assign, invalid load, reset, load, build; three construction styles (Schema.__getattr__, "
-             "assigned Schema(env=), schema['a.b.f'] = field). Then seeded random cases: depth <= 6, mixed-case and odd "
+             "assigned Schema(env=), schema['a.b.f'] = field). Plus, at depth 1-3 and four ways of binding, fields whose "
+             "validation of the variable's text raises ValueError / TypeError / KeyError / ZeroDivisionError / OSError / a "
+             "custom Exception subclass, through a `validator=` callable and through a Field subclass's _validate: "
+             "construction must raise ValidationError with the field's dotted path. Then seeded random cases: depth <= 6, mixed-case and odd "
              "names, empty names, random sibling schemas, random histories and boundary strings for int()/bool. "
              "non-trivial = some field of the schema is bound or the root has a setting; distinct = distinct case"),
     "trusted_base": [KERNEL, "Print Assumptions: closed under the global context (no axioms)", TIE, HARNESS,
